@@ -606,6 +606,14 @@ class NetworkXPropertyGraph(ABCPropertyGraph, NetworkXMixin):
             raise PropertyGraphQueryException(node_id=node_id, graph_id=self.graph_id,
                                               msg="Unable to add node - a node with this ID exists")
 
+        # the identity of the new node comes from the arguments, the property bag cannot contradict it
+        if props is not None:
+            for k, v in ((ABCPropertyGraph.GRAPH_ID, self.graph_id), (ABCPropertyGraph.NODE_ID, node_id),
+                         (ABCPropertyGraph.PROP_CLASS, label)):
+                if k in props and props[k] != v:
+                    raise PropertyGraphQueryException(node_id=node_id, graph_id=self.graph_id,
+                                                      msg=f"Unable to add node - property {k} contradicts the arguments")
+
         int_id = self.storage.add_blank_node_to_graph(self.graph_id, Class=label,
                                                       NodeID=node_id)
         if props is not None:
